@@ -503,3 +503,105 @@ VARIANTS += [
 				return fmt.Errorf("extended critical attribute %v is not supported: it must be processed by a verification plugin", attr.Key)''',
       why='a non-critical first attribute ends the scan: a critical one behind it is accepted (reference shape)'),
 ]
+
+# the block moved verbatim ("extract method"): nesting kept, one success return at the end, results through variables
+_body = OLD_LOOKUP.replace('\t// check if we need to verify using a plugin\n', '').replace('&outcome.EnvelopeContent.SignerInfo', 'signerInfo')
+_body = _body.replace('return err\n', 'return "", nil, nil, err\n').replace('return notation.ErrorVerificationInconclusive', 'return "", nil, nil, notation.ErrorVerificationInconclusive')
+LOOKUP_HELPER_SINGLE_EXIT = ('func (v *verifier) lookupVerificationPlugin(ctx context.Context, signerInfo *signature.SignerInfo, pluginConfig map[string]string) (string, pluginframework.VerifyPlugin, []pluginframework.Capability, error) {\n'
+    '\tlogger := log.GetLogger(ctx)\n' + _body + '\treturn verificationPluginName, installedPlugin, pluginCapabilities, nil\n}\n\n')
+
+VARIANTS += [
+ dict(name='benign-lookup-helper-single-exit', expect='silent', edits=lookup_shape(helper=LOOKUP_HELPER_SINGLE_EXIT),
+      why='the block moved verbatim into the helper: one success return behind the `if name != ""` nesting, the results merge in phis'),
+ dict(name='lookup-helper-single-exit-plugin-kept-conditionally', expect='flagged(plugin/lookup-results)',
+      edits=lookup_shape(helper=sub(LOOKUP_HELPER_SINGLE_EXIT, '\t\tif len(pluginCapabilities) == 0 {', '\t\tif pluginConfig == nil {\n\t\t\tinstalledPlugin = nil\n\t\t}\n\t\tif len(pluginCapabilities) == 0 {')),
+      why='with a plugin named the helper may hand back nil: the plugin would not be executed'),
+ dict(name='lookup-helper-single-exit-get-error-ignored', expect='flagged(plugin/get-error)',
+      edits=lookup_shape(helper=sub(LOOKUP_HELPER_SINGLE_EXIT, 'Get(ctx, verificationPluginName)\n\t\tif err != nil {', 'Get(ctx, verificationPluginName)\n\t\tif err != nil && installedPlugin == nil {'))),
+ dict(name='lookup-helper-single-exit-unfiltered', expect='flagged(routing/declared-capabilities)',
+      edits=lookup_shape(helper=sub(LOOKUP_HELPER_SINGLE_EXIT, '\t\t\tif capability == pluginframework.CapabilityRevocationCheckVerifier || capability == pluginframework.CapabilityTrustedIdentityVerifier {', '\t\t\tif capability != "" {'))),
+]
+
+# ---- a native check written as a stage helper of the processing function
+OLD_ID_STAGE = '''		logger.Debug("Validating trust identity")
+		err = verifyX509TrustedIdentities(policyName, trustedIdentities, outcome.EnvelopeContent.SignerInfo.CertificateChain)
+		if err != nil {
+			authenticityResult.Error = err
+			logVerificationResult(logger, authenticityResult)
+		}
+		if isCriticalFailure(authenticityResult) {
+			return authenticityResult.Error
+		}
+'''
+NEW_ID_STAGE = '''		if err := verifyTrustedIdentityNatively(logger, policyName, trustedIdentities, outcome, authenticityResult); err != nil {
+			return err
+		}
+'''
+ID_STAGE_HELPER = '''func verifyTrustedIdentityNatively(logger log.Logger, policyName string, trustedIdentities []string, outcome *notation.VerificationOutcome, authenticityResult *notation.ValidationResult) error {
+	logger.Debug("Validating trust identity")
+	err := verifyX509TrustedIdentities(policyName, trustedIdentities, outcome.EnvelopeContent.SignerInfo.CertificateChain)
+	if err != nil {
+		authenticityResult.Error = err
+		logVerificationResult(logger, authenticityResult)
+	}
+	if isCriticalFailure(authenticityResult) {
+		return authenticityResult.Error
+	}
+	return nil
+}
+
+'''
+OLD_REV_STAGE = '''		logger.Debug("Validating revocation")
+		revocationResult := v.verifyRevocation(ctx, outcome)
+		outcome.VerificationResults = append(outcome.VerificationResults, revocationResult)
+		logVerificationResult(logger, revocationResult)
+		if isCriticalFailure(revocationResult) {
+			return revocationResult.Error
+		}
+'''
+NEW_REV_STAGE = '''		if err := v.verifyRevocationNatively(ctx, logger, outcome); err != nil {
+			return err
+		}
+'''
+REV_STAGE_HELPER = '''func (v *verifier) verifyRevocationNatively(ctx context.Context, logger log.Logger, outcome *notation.VerificationOutcome) error {
+	logger.Debug("Validating revocation")
+	revocationResult := v.verifyRevocation(ctx, outcome)
+	outcome.VerificationResults = append(outcome.VerificationResults, revocationResult)
+	logVerificationResult(logger, revocationResult)
+	if isCriticalFailure(revocationResult) {
+		return revocationResult.Error
+	}
+	return nil
+}
+
+'''
+def id_stage(helper=ID_STAGE_HELPER, call=NEW_ID_STAGE):
+    return [(V, OLD_ID_STAGE, call), (V, ANCHOR, helper + ANCHOR)]
+def rev_stage(helper=REV_STAGE_HELPER, call=NEW_REV_STAGE):
+    return [(V, OLD_REV_STAGE, call), (V, ANCHOR, helper + ANCHOR)]
+
+VARIANTS += [
+ dict(name='benign-identity-stage-helper', expect='silent', edits=id_stage()),
+ dict(name='benign-revocation-stage-helper', expect='silent', edits=rev_stage()),
+ dict(name='benign-all-helpers', expect='silent', edits=helpers_shape(more=run_shape() + id_stage() + rev_stage()),
+      why='lookup, filters, native identity stage, native revocation stage, plugin run and critical-attribute rejection are all helpers'),
+ dict(name='identity-stage-result-dropped', expect='flagged(routing/identity)',
+      edits=id_stage(call='\t\t_ = verifyTrustedIdentityNatively(logger, policyName, trustedIdentities, outcome, authenticityResult)\n')),
+ dict(name='identity-stage-routes-around-check', expect='flagged(routing/identity)',
+      edits=id_stage(helper=sub(ID_STAGE_HELPER, '\tlogger.Debug("Validating trust identity")\n', '\tif policyName == "" {\n\t\treturn nil\n\t}\n\tlogger.Debug("Validating trust identity")\n'))),
+ dict(name='identity-stage-error-not-recorded', expect='flagged(routing/identity-result)',
+      edits=id_stage(helper=sub(ID_STAGE_HELPER, '\t\tauthenticityResult.Error = err\n', ''))),
+ dict(name='identity-stage-ungated', expect='flagged(gated/)',
+      edits=id_stage(helper=sub(ID_STAGE_HELPER, '\tif isCriticalFailure(authenticityResult) {\n\t\treturn authenticityResult.Error\n\t}\n', ''))),
+ dict(name='identity-stage-unguarded', expect='flagged(routing/identity)',
+      edits=id_stage() + [(V, 'if !slices.Contains(pluginCapabilities, pluginframework.CapabilityTrustedIdentityVerifier) {', 'if !slices.Contains(pluginCapabilities, pluginframework.CapabilityRevocationCheckVerifier) {')]),
+ dict(name='revocation-stage-result-dropped', expect='flagged(routing/revocation)',
+      edits=rev_stage(call='\t\t_ = v.verifyRevocationNatively(ctx, logger, outcome)\n')),
+ dict(name='revocation-stage-routes-around-check', expect='flagged(routing/revocation)',
+      edits=rev_stage(helper=sub(REV_STAGE_HELPER, '\tlogger.Debug("Validating revocation")\n', '\tif v.revocationClient == nil {\n\t\treturn nil\n\t}\n\tlogger.Debug("Validating revocation")\n'))),
+ dict(name='revocation-stage-ungated', expect='flagged(gated/)',
+      edits=rev_stage(helper=sub(REV_STAGE_HELPER, '\tif isCriticalFailure(revocationResult) {\n\t\treturn revocationResult.Error\n\t}\n', ''))),
+ dict(name='revocation-stage-when-plugin-owns', expect='flagged(routing/revocation)',
+      edits=rev_stage() + [(V, '''	if outcome.VerificationLevel.Enforcement[trustpolicy.TypeRevocation] != trustpolicy.ActionSkip &&
+		!slices.Contains(pluginCapabilities, pluginframework.CapabilityRevocationCheckVerifier) {''', '''	if outcome.VerificationLevel.Enforcement[trustpolicy.TypeRevocation] != trustpolicy.ActionSkip {''')]),
+]
